@@ -31,8 +31,18 @@ def check(F, rep):
         # monotone min
         du = defuse(ur)
         ent = find_calls(ur, regex=r"Entry::or_insert$")
-        rep.exact("monotone", "entry(url).or_insert(latency)", len(ent), 1)
-        stores = [(b, i, s) for b, i, s in ur.stmts() if s["k"] == "a" and s["lhs"].get("p") and s["lhs"]["p"][0][0] == "deref" and ent and copy_sources(ur, s["lhs"]["l"]) == {("call", "alloc::collections::btree::map::entry::Entry::or_insert", ())}]
+        rep.exact("monotone", "entry(url).or_insert(latency) / get_mut(url)", len(ent) + len(find_calls(ur, regex=r"BTreeMap::get_mut$")), 1)
+        ENTRY = r"(entry::Entry::or_insert|BTreeMap::get_mut)$"
+        gm = find_calls(ur, regex=r"BTreeMap::get_mut$")
+        is_entry_ref = lambda l: bool(copy_sources(ur, l)) and all(x[0] == "call" and re.search(ENTRY, x[1]) for x in copy_sources(ur, l))
+        stores = [(b, i, s) for b, i, s in ur.stmts() if s["k"] == "a" and s["lhs"].get("p") and s["lhs"]["p"][0][0] == "deref" and (ent or gm) and is_entry_ref(s["lhs"]["l"])]
+        if gm and not ent:
+            # get_mut idiom: the absent case must insert the new latency
+            ins = find_calls(ur, regex=r"BTreeMap::insert$")
+            gts_, _ = call_result_tests(ur, gm[0][0])
+            okins = len(ins) == 1 and copy_sources(ur, op_base(ins[0][1]["args"][2])) == {("arg", 3, ())} and requires_failure(ur, ins[0][0], gts_)
+            rep.ob("monotone", okins, site(ur, gm[0][0]), "an unknown relay gets the new latency inserted (get_mut idiom: insert on the None edge)", RL + "::update_relay|insert-absent")
+            ent = gm
         am = find_calls(ur, regex=r"Entry::and_modify$")
         if not stores and am:
             # idiom 2: entry(url).and_modify(|old| *old = (*old).min(latency)).or_insert(latency)
@@ -69,8 +79,8 @@ def check(F, rep):
                 n = callee_names(ct)[0].rsplit("::", 1)[-1]
                 a0 = copy_sources(ur, op_base(ct["args"][0]))
                 a1 = copy_sources(ur, op_base(ct["args"][1]))
-                new_first = a0 == {("arg", 3, ())} and all(x[0] == "call" and x[1].endswith("or_insert") for x in a1) and bool(a1)
-                old_first = a1 == {("arg", 3, ())} and all(x[0] == "call" and x[1].endswith("or_insert") for x in a0) and bool(a0)
+                new_first = a0 == {("arg", 3, ())} and all(x[0] == "call" and re.search(ENTRY, x[1]) for x in a1) and bool(a1)
+                old_first = a1 == {("arg", 3, ())} and all(x[0] == "call" and re.search(ENTRY, x[1]) for x in a0) and bool(a0)
                 ts, _ = call_result_tests(ur, cb, family="bool")
                 if ((new_first and n == "lt") or (old_first and n == "gt")) and requires(ur, b, ts):
                     ok = True
@@ -108,6 +118,11 @@ def check(F, rep):
     for name in ("is_empty", "get"):
         g = get_fn(F, rep, RL + "::" + name)
         flds = {recv_field(g, t["args"][0]) for b, t in g.calls() if call_matches(t, r"BTreeMap::(is_empty|get)$")}
+        if name == "get" and not flds - {None}:
+            # table-array idiom: the maps are collected by reference and queried in a closure
+            flds = {e[2] for b, i, s_ in g.stmts() if s_["k"] == "a" and s_["rv"]["k"] == "ref" and resolve_place(g, s_["rv"]["p"])["l"] == 1 for e in resolve_place(g, s_["rv"]["p"]).get("p", []) if e[0] == "f" and e[3] == RL}
+            if not any(call_matches(t, r"BTreeMap::get$") for h in F.tree(g) for b, t in h.calls()):
+                flds = set()
         rep.ob("table_agreement", flds == set(WANT.values()), site(g), "%s consults all three maps: %s" % (name, sorted(x or "?" for x in flds)), RL + "::%s|all-maps" % name)
     gt = get_fn(F, rep, RL + "::get")
     rep.ob("monotone", any(call_matches(t, r"Iterator::min$") for b, t in gt.calls()), site(gt), "get() returns the minimum over the maps", RL + "::get|min")
